@@ -53,9 +53,14 @@ freeEntCache(struct AdfCacheEntry *cEntry)
  *
  * replace 'adfGetDirEnt'. returns a the dir contents based on the dircache list
  */
-struct AdfList * adfGetDirEntCache ( struct AdfVolume * const vol,
-                                     const SECTNUM            dir,
-                                     const BOOL               recurs )
+/* bounded like adfGetRDirEnt: one unit of budget per cache block and per record */
+#define ADF_MAX_DIR_DEPTH 512
+
+static struct AdfList * adfGetDirEntCache_ ( struct AdfVolume * const vol,
+                                             const SECTNUM            dir,
+                                             const BOOL               recurs,
+                                             const unsigned           depth,
+                                             unsigned * const         budget )
 {
 	struct bEntryBlock parent;
 	struct bDirCacheBlock dirc;
@@ -64,6 +69,11 @@ struct AdfList * adfGetDirEntCache ( struct AdfVolume * const vol,
     struct AdfCacheEntry caEntry;
     struct AdfEntry *entry;
     SECTNUM nSect;
+
+    if ( depth > ADF_MAX_DIR_DEPTH ) {
+        *budget = 0;
+        return NULL;
+    }
 
     if (adfReadEntryBlock(vol,dir,&parent)!=RC_OK)
         return NULL;
@@ -74,10 +84,22 @@ struct AdfList * adfGetDirEntCache ( struct AdfVolume * const vol,
     do {
         /* one loop per cache block */
         n = offset = 0;
-	    if (adfReadDirCBlock(vol, nSect, &dirc)!=RC_OK)
+        if ( *budget == 0 ) {
+            adfFreeDirList(head);
             return NULL;
+        }
+        (*budget)--;
+	    if (adfReadDirCBlock(vol, nSect, &dirc)!=RC_OK) {
+            adfFreeDirList(head);
+            return NULL;
+        }
         while (n<dirc.recordsNb) {
             /* one loop per record */
+            if ( *budget == 0 ) {
+                adfFreeDirList(head);
+                return NULL;
+            }
+            (*budget)--;
             entry = ( struct AdfEntry * ) malloc ( sizeof ( struct AdfEntry ) );
             if (!entry) {
                 adfFreeDirList(head);
@@ -98,9 +120,11 @@ struct AdfList * adfGetDirEntCache ( struct AdfVolume * const vol,
             entry->sector = (int32_t) caEntry.header;
             entry->comment = strdup(caEntry.comm);
             if (entry->comment==NULL) {
-                free(entry->name); adfFreeDirList(head);
+                free(entry->name); free(entry); adfFreeDirList(head);
                 return NULL;
             }
+            entry->real = 0;
+            entry->parent = dir;
             entry->size = (uint32_t) caEntry.size;
             entry->access = (int32_t) caEntry.protect;
             adfDays2Date( caEntry.days, &(entry->year), &(entry->month), 
@@ -121,8 +145,13 @@ struct AdfList * adfGetDirEntCache ( struct AdfVolume * const vol,
                 return NULL;
             }
 
-            if (recurs && entry->type==ST_DIR)
-                 cell->subdir = adfGetDirEntCache(vol,entry->sector,recurs);
+            if (recurs && entry->type==ST_DIR) {
+                 cell->subdir = adfGetDirEntCache_(vol,entry->sector,recurs,depth+1,budget);
+                 if ( *budget == 0 ) {
+                     adfFreeDirList(head);
+                     return NULL;
+                 }
+            }
 
             n++;
         }
@@ -130,6 +159,14 @@ struct AdfList * adfGetDirEntCache ( struct AdfVolume * const vol,
     }while (nSect!=0);
     
     return head;	
+}
+
+struct AdfList * adfGetDirEntCache ( struct AdfVolume * const vol,
+                                     const SECTNUM            dir,
+                                     const BOOL               recurs )
+{
+    unsigned budget = 2 * (unsigned) ( vol->lastBlock - vol->firstBlock + 1 );
+    return adfGetDirEntCache_ ( vol, dir, recurs, 0, &budget );
 }
 
 
